@@ -57,6 +57,29 @@ def gen_msolve(tier, rng):
             cases += cs[:: max(1, len(cs) // (3000 if tier == "quick" else 60000))]
     return cases
 
+def gen_prod(tier, rng):
+    """Model-level optimisation in the PRODUCTION configuration (root LP step and fast path on), models with
+    several linear rows over shared variables and tied optima: this is where an order source can leak into the
+    returned assignment (added after seeded change C16_linear_hashmap_order was only seen by the inventory scan)"""
+    n = 1500 if tier == "quick" else 40000
+    cases = []
+    for _ in range(n):
+        nv = rng.randint(2, 4)
+        doms = "|".join("0..%d" % rng.randint(2, 10) for _ in range(nv))
+        posts = []
+        for _ in range(rng.randint(1, 3)):
+            vs = rng.sample(range(nv), rng.randint(2, nv))
+            half = max(1, len(vs) // 2)
+            l = "x%d" % vs[0]
+            for v in vs[1:half]: l = "add(%s,x%d)" % (l, v)
+            r = "x%d" % vs[half] if half < len(vs) else str(rng.randint(0, 9))
+            for v in vs[half + 1:]: r = "add(%s,x%d)" % (r, v)
+            if rng.random() < 0.5: r = "add(%s,%d)" % (r, rng.randint(0, 6))
+            posts.append("new %s(%s,%s)" % (rng.choice(["le", "ge", "eq", "le"]), l, r))
+        obj = rng.randrange(nv)
+        cases.append(" ; ".join([doms] + posts + ["%s x%d" % (rng.choice(["min", "max"]), obj), "prod"]))
+    return cases
+
 def gen_gac(tier, rng):
     from . import c19
     cases = []
@@ -81,6 +104,7 @@ def split_noccorr(model_line):
 FAMILIES = [
     mk_family("two_process_solve", "solve", gen_solve, None, split=split_first),
     mk_family("two_process_msolve", "msolve", gen_msolve, None, split=split_noccorr),
+    mk_family("two_process_production_optimise", "msolve", gen_prod, None, split=split_noccorr),
     mk_family("two_process_gac", "gac", gen_gac, None, split=split_first),
     mk_family("two_process_limits", "limits", gen_limits, None, split=split_first),
 ]
